@@ -51,7 +51,7 @@ def oracle_c03(r):
     len follow the reference (min(n+1, remaining) objects processed, None iff nothing remains)"""
     out = []
     m = r["mode"]
-    cls_t = m_grad.taiko_class(r) if m == 1 else None
+    cls_t = None
     total = r["total"]
     for s in r["seqs"]:
         if "panic" in s:
@@ -127,7 +127,7 @@ def run(chk, binary, count, max_objects, model=True):
             byid = {r["id"]: r for r in srows}
             for cid, which in bad:
                 r = byid[cid]
-                cls = m_grad.taiko_class(r) if r["mode"] == 1 else None
+                cls = None
                 if which >= 300 and chk.known_class(cls):
                     # the model reproduces the recorded taiko finding: its idx differs from the reference
                     continue
